@@ -52,6 +52,12 @@ UNITS = [
     'in so far ', 'only ', '0', 'I', 'l', 'O', 'S', '|', '_', '~', '§', 's',
     'ee', 'ss', 'hh', 'ii', 'pp', 'ww', 'nn', 'oo', 'aa', 'Quarter ',
     'One ', 'Half ', '1/4 ', '1/2 ', ' 1', '. . ', ' ,', '- ', ' .',
+    # mixed / exotic whitespace (runs that a per-character collapse misses)
+    '\n ', ' \n', ' \t', '\t ', '\n\t', '\xa0', '\u2009', '\u3000', ' \xa0',
+    '\r', '\x0b', '\x0c', '\n \n',
+    # abbreviated conjunctions with a period, glued conjunctions
+    ' thru. ', ' through. ', 'thru.', ' to. ', ' and. ', '&', ' &', ', and ',
+    ' , ', ';;', '::', '.,', ',.', ' / ', '/ ',
 ]
 PREFIXES = ['', 'T154N-R97W ', 'T154N-R97W Sec 14', 'T154N-R97W Sec 14: ',
             'T154N-R97W Sec 14: Lot 1', 'T154N-R97W Sec 14: N/2', 'Sec 14',
@@ -281,6 +287,25 @@ def _structural():
         out.append(("T154N-R97W Secs " + ", ".join(str(i) for i in range(1, 2 * k)) + ": ALL", f"multisec:{k}"))
         out.append(("T154N-R97W Sec 1: " + "N/2 of the " * k + "NE/4", f"ofthe-chain:{k}"))
         out.append(("Township 154 North, Range 97 West, of the 5th P.M., " * max(1, k // 5) + "Sec 1: ALL", f"pm-lines:{k}"))
+    # A long list, then something that makes the surrounding pattern fail
+    # or forces the list to be re-read (second Twp/Rge, trailing text).
+    for k in (8, 12, 16, 20, 25, 30, 40):
+        secs = ', '.join(str(i) for i in range(1, k + 1))
+        lots = ', '.join(str(i) for i in range(1, k + 1))
+        for tail, tw in ((': NE/4, T155N-R97W Sec 1: ALL', 'colon+twprge'),
+                         (' NE/4, T155N-R97W Sec 1: ALL', 'twprge'),
+                         (', T155N-R97W', 'comma-twprge'),
+                         (' of T155N-R97W', 'of-twprge'),
+                         (': NE/4', 'plain'), (' and', 'dangling-and')):
+            out.append((f"T154N-R97W Secs {secs}{tail}", f"seclist:{k}:{tw}"))
+            out.append((f"NE/4 of Secs {secs}{tail}", f"seclist-first:{k}:{tw}"))
+        for tail, tw in ((' of Sec 5, T155N-R97W', 'of-sec'), (', NE/4', 'aliq'),
+                         (' and', 'dangling-and'), (' (40.00', 'open-acreage'),
+                         (' N/2 W/2 T5N', 'twp-lookalike')):
+            out.append((f"T154N-R97W Sec 1: Lots {lots}{tail}",
+                        f"lotlist:{k}:{tw}"))
+            out.append((f"T154N-R97W Sec 1: N/2 of Lots {lots}{tail}",
+                        f"lotdivlist:{k}:{tw}"))
     return [(t[:SIZE_BOUND], w) for t, w in out]
 
 
